@@ -167,6 +167,21 @@ func typeStr(t types.Type) string {
 	})
 }
 
+// wireTypeStr names a number type by what it is on the wire: a named number type (`type Side uint8`) is rendered by
+// binary.Write/Read exactly as its underlying type.
+func wireTypeStr(t types.Type) string {
+	if t == nil {
+		return "?"
+	}
+	if _, isTP := t.(*types.TypeParam); isTP {
+		return typeStr(t)
+	}
+	if b, ok := t.Underlying().(*types.Basic); ok && b.Info()&(types.IsNumeric|types.IsBoolean) != 0 {
+		return typeStr(types.Typ[b.Kind()])
+	}
+	return typeStr(t)
+}
+
 func (v *Val) String() string { return v.Pretty() }
 
 // Pretty renders a Val for reports.
